@@ -153,7 +153,7 @@ class RefOvld:
                     kind = "nomethod"
                 return (kind, tuple(trace))
             trace.append(m.id)
-            if m.body in ("cn", "next", "cnk"):
+            if m.body in ("cn", "next", "cnk", "cnstar"):
                 visited.add(m.id)
                 continue
             if m.body in ("cnv", "cnv2"):
